@@ -103,3 +103,27 @@ PROPS["C08"] = dict(
     trusted=VM_TRUSTED,
     assumptions=["error *variants* are compared only as correspondence detail; the property-level comparison is success/failure, position and results"],
 )
+
+
+def gas_project(out):
+    """C07's observables: the reported gas, or the out-of-gas error and where"""
+    t = out.split(" ")
+    if t[0] == "ok":
+        return "ok " + t[1]
+    if t[0] == "err" and len(t) >= 3 and t[2] == "OutOfGas":
+        return "err " + t[1] + " OutOfGas"
+    return t[0]
+
+
+PROPS["C07"] = dict(
+    modules=["Essential.Props.C07"],
+    gen=gen_vm.c07_cases,
+    project=gas_project, nontrivial=vm_nontrivial, classify=vm_classify, model_is_spec=True, release=True,
+    exhaustive="cost/limit corner grid (costs 0, 1, 2^62, u64::MAX/6, u64::MAX x limits exact-1, exact, exact+1, 0, u64::MAX) for straight-line, compute and loop programs",
+    rule="cases: straight-line, compute (breadth 1..50), backward-jump and repeat programs under per-opcode cost tables "
+         "(0, 1, small, 2^62, u64::MAX) and limits around the exact total; the harness wraps the cost function in an audit "
+         "(u128 sum of what it returned) and checks Ok(g) => g == audited and g <= limit, OutOfGas => the cost really did not "
+         "fit; non-trivial = distinct case that executes at least one op",
+    trusted=VM_TRUSTED,
+    assumptions=["K2 (documented residual): compute children each start with the full limit; the excess is reported as OutOfGas at the join, no observable result depends on the extra work"],
+)
